@@ -154,26 +154,26 @@ pub fn swap_input(
             state.base_asset_reserve,
         )?;
 
-        // If AddToAmm, exchanged base amount should be more than base_asset_limit,
-        // otherwise(RemoveFromAmm), exchanged base amount should be less than base_asset_limit.
-        // In RemoveFromAmm case, more position means more debt so should not be larger than base_asset_limit
-        if !base_asset_limit.is_zero() {
-            if direction == Direction::AddToAmm && base_asset_amount < base_asset_limit {
-                return Err(StdError::generic_err(
-                    "Less than minimum base asset amount limit",
-                ));
-            } else if direction == Direction::RemoveFromAmm && base_asset_amount > base_asset_limit
-            {
-                return Err(StdError::generic_err(
-                    "Greater than maximum base asset amount limit",
-                ));
-            }
-        }
-
         base_asset_amount
     } else {
         Uint128::zero()
     };
+
+    // If AddToAmm, exchanged base amount should be more than base_asset_limit,
+    // otherwise(RemoveFromAmm), exchanged base amount should be less than base_asset_limit.
+    // In RemoveFromAmm case, more position means more debt so should not be larger than base_asset_limit
+    // (an empty swap exchanges nothing and is held to the limit like any other)
+    if !base_asset_limit.is_zero() {
+        if direction == Direction::AddToAmm && base_asset_amount < base_asset_limit {
+            return Err(StdError::generic_err(
+                "Less than minimum base asset amount limit",
+            ));
+        } else if direction == Direction::RemoveFromAmm && base_asset_amount > base_asset_limit {
+            return Err(StdError::generic_err(
+                "Greater than maximum base asset amount limit",
+            ));
+        }
+    }
 
     let response = update_reserve(
         deps.storage,
@@ -223,29 +223,28 @@ pub fn swap_output(
             state.base_asset_reserve,
         )?;
 
-        // If AddToAmm, exchanged base amount should be more than quote_asset_limit,
-        // otherwise(RemoveFromAmm), exchanged base amount should be less than quote_asset_limit.
-        // In RemoveFromAmm case, more position means more debt so should not be larger than quote_asset_limit
-        if !quote_asset_limit.is_zero() {
-            if update_direction == Direction::RemoveFromAmm
-                && quote_asset_amount < quote_asset_limit
-            {
-                return Err(StdError::generic_err(
-                    "Less than minimum quote asset amount limit",
-                ));
-            } else if update_direction == Direction::AddToAmm
-                && quote_asset_amount > quote_asset_limit
-            {
-                return Err(StdError::generic_err(
-                    "Greater than maximum quote asset amount limit",
-                ));
-            }
-        }
-
         quote_asset_amount
     } else {
         Uint128::zero()
     };
+
+    // If AddToAmm, exchanged base amount should be more than quote_asset_limit,
+    // otherwise(RemoveFromAmm), exchanged base amount should be less than quote_asset_limit.
+    // In RemoveFromAmm case, more position means more debt so should not be larger than quote_asset_limit
+    // (an empty swap exchanges nothing and is held to the limit like any other)
+    if !quote_asset_limit.is_zero() {
+        if update_direction == Direction::RemoveFromAmm && quote_asset_amount < quote_asset_limit {
+            return Err(StdError::generic_err(
+                "Less than minimum quote asset amount limit",
+            ));
+        } else if update_direction == Direction::AddToAmm
+            && quote_asset_amount > quote_asset_limit
+        {
+            return Err(StdError::generic_err(
+                "Greater than maximum quote asset amount limit",
+            ));
+        }
+    }
 
     let response = update_reserve(
         deps.storage,
